@@ -155,6 +155,10 @@ func (c *Ctx) exec(cs any) {
 
 	defer func() {
 		if r := recover(); r != nil {
+			if s, ok := r.(string); ok && strings.HasPrefix(s, "harness:") {
+				c.Inconclusive(s)
+				return
+			}
 			// A panic that escaped the property's own call guards: either the library panicked where the harness
 			// did not expect it, or the harness is wrong. Report it with the stack so that it can be told apart.
 			c.Fail("unexpected panic: "+fmt.Sprint(r), "unexpected-panic", map[string]any{"stack": string(debug.Stack())})
